@@ -61,7 +61,52 @@ def s_ripemd160(ctx, args, kw):
     return U.ripemd160(d)
 
 
+_SEGWIT = {}
+
+
+def segwit_fn(n):
+    if n not in _SEGWIT:
+        _SEGWIT[n] = z3.Function(f"SEGWIT_{n}", INT, INT, INT, PStr)
+    return _SEGWIT[n]
+
+
+def hrp_code(hrp):
+    if is_sym(hrp):
+        return hrp
+    return {"bc": 0, "tb": 1}.get(hrp, 2 + int.from_bytes(hrp.encode(), "big"))
+
+
+def segwit_legal(witver, n):
+    return L.land(witver >= 0, witver <= 16, 2 <= n <= 40, L.implies(witver == 0, n in (20, 32)))
+
+
+def segwit_addr(testnet, witver, prog):
+    """spec: BIP173/350 address of (hrp = tb|bc, witness version, program); opaque, injective by C11"""
+    prog = as_rope(prog)
+    tn = simplify_native(testnet)
+    if prog.is_concrete() and not is_sym(tn) and not is_sym(witver):
+        from spec import bech32 as SB
+        return SB.encode("tb" if tn else "bc", witver, prog.native())
+    code = L.ite(tn, 1, 0)
+    return SStr([OStr(segwit_fn(len(prog))(L.toint(code), L.toint(witver), L.toint(prog.be())), f"segwit{len(prog)}")])
+
+
+def s_bech32_encode(ctx, args, kw):
+    names = ["hrp", "witver", "witprog"]
+    a = dict(zip(names, args))
+    a.update(kw)
+    hrp, witver, prog = a["hrp"], simplify_native(a["witver"]), simplify_native(a["witprog"])
+    if not isinstance(hrp, str) or not isinstance(prog, (Rope, bytes)):
+        raise Undecided("bech32.encode summary: unsupported argument shapes")
+    prog = as_rope(prog)
+    legal = segwit_legal(witver, len(prog))
+    if not ctx.branch(legal):
+        return None
+    return SStr([OStr(segwit_fn(len(prog))(L.toint(hrp_code(hrp)), L.toint(witver), L.toint(prog.be())), f"segwit{len(prog)}")])
+
+
 def install():
+    SUMMARIES["btc_hd_wallet.bech32.encode"] = s_bech32_encode
     SUMMARIES["btc_hd_wallet.helper.encode_base58_checksum"] = s_encode_base58_checksum
     SUMMARIES["btc_hd_wallet.helper.decode_base58_checksum"] = s_decode_base58_checksum
     SUMMARIES["btc_hd_wallet.ripemd.ripemd160"] = s_ripemd160
